@@ -8,7 +8,7 @@ CHECKS = {
  "C15": dict(
   level="fault_enumeration", engine="fault",
   technique="exhaustive single/double fault-position enumeration (x kinds of error value, x really cancelled contexts), kill-point enumeration (hook points and single system calls) on the real write paths, and exhaustive enumeration of the interleavings of overlapping atomic puts",
-  text="Every destination operation (put, each write incl. short write, close, rename) recorded in a fault-free run of each write path is failed one at a time (thorough: every pair) on the real code, over memory buckets and over the disk bucket's internal hook points; an atomic put is observed at, and a real subprocess SIGKILLed at, every hook point. Oracles: fault fired => error returned; nil error => destination complete; observers see old or complete new content only.",
+  text="Every destination operation (put, each write incl. short write, close, rename) recorded in a fault-free run of each write path is failed one at a time (thorough: every pair) on the real code, over memory buckets and over the disk bucket's internal hook points; an atomic put is observed at, and a real subprocess SIGKILLed at, every hook point. Oracles: fault fired => error returned; nil error => destination complete; observers see old or complete new content only. Added later: every single failure is also injected with each of six kinds of error value (plain, ENOENT, EEXIST, ENOSPC, EOF, cancelled) and as a really cancelled context; atomic puts whose rename fails in the kernel (final name occupied by a directory); image output streams (plain, gzip, zstd) that are full after k bytes for every k; every interleaving of the Put/Write/Write/Close steps of 2-3 writers putting the same object atomically, including writers that die before Close, with a reader after every step; single-system-call kill points under strace.",
   note="Faults are injected at the storage interfaces and the storageos hook points; crash = process death (no power-loss/fsync model). Source sets are 3 fixed small sets; write positions per object capped at 3-4.",
   design="3/C15"),
 }
@@ -16,27 +16,27 @@ CHECKS = {
 CHECKS["C13"] = dict(
   level="exploration", engine="enum",
   technique="bounded-exhaustive enumeration of path strings x bucket shapes x operations (and archive entry kinds) on the real buckets with sentinels, against a lexical reference model; all operation histories up to depth 3 on disk buckets with relative roots, observed between Put, Write and Close",
-  text="Every path string of 1..3 (thorough 4) components over {a . .. '' a.b ..a ...} with optional leading/trailing slash is applied with every operation (Get, Stat, Walk, Put, atomic Put, Delete, DeleteAll, CopyPath, Copy into a sub-view) to 14 bucket shapes (disk with/without symlink support, memory, prefix views of depth 1-2, chained mappers, filter, union, overlay, strip, limit), as tar/zip entry names with strip 0..2, and as plugin response file names; sentinels outside every root must stay byte-identical, no read may return sentinel data, and every name that the reference stack machine says escapes or is absolute must be rejected.",
+  text="Every path string of 1..3 (thorough 4) components over {a . .. '' a.b ..a ...} with optional leading/trailing slash is applied with every operation (Get, Stat, Walk, Put, atomic Put, Delete, DeleteAll, CopyPath, Copy into a sub-view) to 14 bucket shapes (disk with/without symlink support, memory, prefix views of depth 1-2, chained mappers, filter, union, overlay, strip, limit), as tar/zip entry names with strip 0..2, and as plugin response file names; sentinels outside every root must stay byte-identical, no read may return sentinel data, and every name that the reference stack machine says escapes or is absolute must be rejected. Added later: archive entries of five kinds carry the names; every operation history of length <=3 over 13 operations on disk buckets whose root is given as absolute, relative and ./-relative path is observed after every step and between Put, Write and Close, with $TMPDIR inside the watched area; git clones of a repository with checked-in links to the outside.",
   note="Component alphabet and length are bounded; no symlinks pointing outside the root in the fixture; unix path semantics only.",
   design="3/C13")
 CHECKS["C14"] = dict(
   level="model_checking", engine="statex",
   technique="explicit-state BFS over a reference map model; every transition replayed on fresh real buckets with a full observation menu; plus depth-bounded sequence enumeration, also on long-lived union/overlay views over live members",
-  text="All 256 states of the reference model (4-path prefix-free universe x {absent, empty, 1 byte, 70 KiB}) are reached by BFS with every operation of the alphabet; each of the model transitions is replayed on each of 12 writable implementations/combinators along the shortest model path and the complete observation menu (Get/Stat of 5 spellings per path, non-object paths, Walk of 10 prefixes incl. file-equal and string-prefix-colliding ones) is compared. Every model state is also materialised through tar/zip round trips, copies between kinds and filters; union/overlay duplicates are checked in every state.",
+  text="All 256 states of the reference model (4-path prefix-free universe x {absent, empty, 1 byte, 70 KiB}) are reached by BFS with every operation of the alphabet; each of the model transitions is replayed on each of 12 writable implementations/combinators along the shortest model path and the complete observation menu (Get/Stat of 5 spellings per path, non-object paths, Walk of 10 prefixes incl. file-equal and string-prefix-colliding ones) is compared. Every model state is also materialised through tar/zip round trips, copies between kinds and filters; union/overlay duplicates are checked in every state. Added later: all subsets of size <=2 of 24 unusual names (temp-like, hidden, siblings sorting around '/') through 16 transfer routes with walks of every directory prefix and CopyPath to a different name between kinds; every sequence of <=3 (thorough 4) puts/deletes on the two live members of long-lived union and overlay views, observed after every step.",
   note="Universe is prefix-free (documented orphan-directory behaviour of the disk bucket is outside the quantifier); ObjectInfo.Path() is compared up to normalisation.",
   design="3/C14")
 
 CHECKS["C09"] = dict(
   level="fault_enumeration", engine="sched",
   technique="exhaustive crash-point, fault-position, tampering enumeration plus delay-bounded exhaustive schedule exploration of store/load processes under a controlled scheduler; explicit-state enumeration of cache states x multi-key requests x two-request histories through the caching providers; second reader started at every storage operation of the lazy digest verification",
-  text="The real module data store (dir and tar layouts) on a real directory: (1) the directory is snapshotted at every storage step and disk hook point of a store and every snapshot is recovered from (load in all accessor orders, store again, load), plus real SIGKILLs of a subprocess at every hook point; (2) every single (thorough: pair of) failing put/close/disk write/short write/rename/lock operation; (3) store/load 'processes' with separate store objects sharing the directory and a reader-writer lock table run as threads of a cooperative scheduler: every schedule with at most 3 (thorough 4) deviations from the default schedule, also starting from a crashed directory and with an injected write failure as an environment choice, oracle at every load and on the quiescent state; (4) every single-file tampering of a complete entry incl. every byte of module.yaml, and of a commit-store entry (every byte, every well-formed document with one field removed/blanked, swapped digest type) through both lookup routes. Oracle: a load is a miss, exactly the pinned content (files, dependency digests, v1 side files), or an error - never other content; failed/interrupted stores are repaired by a later store; an acknowledged store leaves a loadable entry.",
+  text="The real module data store (dir and tar layouts) on a real directory: (1) the directory is snapshotted at every storage step and disk hook point of a store and every snapshot is recovered from (load in all accessor orders, store again, load), plus real SIGKILLs of a subprocess at every hook point; (2) every single (thorough: pair of) failing put/close/disk write/short write/rename/lock operation; (3) store/load 'processes' with separate store objects sharing the directory and a reader-writer lock table run as threads of a cooperative scheduler: every schedule with at most 3 (thorough 4) deviations from the default schedule, also starting from a crashed directory and with an injected write failure as an environment choice, oracle at every load and on the quiescent state; (4) every single-file tampering of a complete entry incl. every byte of module.yaml, and of a commit-store entry (every byte, every well-formed document with one field removed/blanked, swapped digest type) through both lookup routes. Oracle: a load is a miss, exactly the pinned content (files, dependency digests, v1 side files), or an error - never other content; failed/interrupted stores are repaired by a later store; an acknowledged store leaves a loadable entry. Added later: (5) cache histories: 8 cache states x 15 ordered selections of 1..3 keys x two-request histories through the caching module-data and commit providers, the i-th value must be the content pinned by the i-th key; (6) the retry of every failed store by the same store object; (7) two readers of one loaded ModuleData of a tampered entry, the second started at every storage operation of the first one's lazy digest verification.",
   note="Crash = process death (directory content at that instant; no fsync/power-loss model). Processes are goroutines with separate objects; scheduling points are bucket-level operations and lock operations (writes into private temp files are invisible and not points); delay bounding rather than full preemption bounding; the real flock locker is checked separately for the RW semantics the lock table assumes.",
   design="3/C09")
 CHECKS["C19"] = dict(
   level="model_checking", engine="enum",
   technique="every sentence of a reference grammar model (BUF_TOKEN strings, netrc entry sequences, request hosts) up to a length bound replayed on the real token providers, interceptor chain and CLI; exhaustive interleavings of Make calls on a shared config; .netrc put/delete histories against a reference model of the file",
-  text="All BUF_TOKEN strings up to length 7 (thorough 9) over {t,u,h,:,@,','} and over a host-symbol alphabet, all netrc entry sequences of <=4 entries in 3 layouts, all request hosts from a derived menu are evaluated by a reference model (recogniser + generator cross-checked) and replayed on NewTokenProviderFromContainer/String, the netrc provider, the authorization interceptor through connectclient.Make with a recording in-process HTTP client, and `buf registry whoami` against loopback registries. Oracle: header present iff the model configures that host, with that token; never a token of another host; malformed strings rejected as a whole; env beats netrc; first duplicate wins.",
-  note="Host comparison is exact-string; alphabet has no whitespace/non-ASCII; TLS off in the CLI phase; two cases the documentation leaves open (':' in an entry token, duplicated host) accept either behaviour.",
+  text="All BUF_TOKEN strings up to length 7 (thorough 9) over {t,u,h,:,@,','} and over a host-symbol alphabet, all netrc entry sequences of <=4 entries in 3 layouts, all request hosts from a derived menu are evaluated by a reference model (recogniser + generator cross-checked) and replayed on NewTokenProviderFromContainer/String, the netrc provider, the authorization interceptor through connectclient.Make with a recording in-process HTTP client, and `buf registry whoami` against loopback registries. Oracle: header present iff the model configures that host, with that token; never a token of another host; malformed strings rejected as a whole; env beats netrc; first duplicate wins. Added later: every interleaving of 2-3 threads (Make for a host on one shared Config, then one request) at the stub-factory and transport seams; the .netrc file as state: put/delete histories up to depth 3 (4) at API level and login/logout histories through the CLI against a reference model of the file.",
+  note="Host comparison is exact-string; alphabet has no whitespace/non-ASCII; TLS off in the CLI phase; one case the documentation leaves open (duplicated host) accepts either behaviour.",
   design="3/C19")
 
 CHECKS["C02"] = dict(
